@@ -233,6 +233,9 @@ def jobs(pid, tier):
         J.append(Job('mdd_conv', dict(N=2, L=3, K=2), need_outcomes=['converted']))
         if not q:
             J.append(Job('mdd_conv', dict(N=3, L=3, K=2), need_outcomes=['converted']))
+            # three nodes over three bits, a one-bit integer above a two-bit one (both bit orders): a node
+            # inside the lower zone that is referenced from inside and from outside it
+            J.append(Job('mdd_conv', dict(N=4, L=3, K=2, choices=[7, 9]), need_outcomes=['converted']))
     if pid == 'C16':
         J.append(Job('dddmp', dict(M=2, nroots=1), need_outcomes=['loaded']))
         J.append(Job('dddmp', dict(M=3, nroots=2, headers=['v0gap', 'v3'] if q else ['v0', 'v0gap', 'v1', 'v3']),
